@@ -143,7 +143,14 @@ def cases(draw, tier="quick"):
     s2t_codec = draw(st.sampled_from(CODECS))
     # sqfs2tar output padded (by one extra file) to land on / next to a multiple of the 256 KiB buffer of the compressing output stream
     s2t_pad = draw(st.sampled_from([None, None, None, None, 0, 0, 0, -512, 512, 131072]))
-    return dict(archive=ar, codec=codec, level=level, splits=splits, trailing=trailing, chunk=chunk, damage=damage, opts=o, s2t_codec=s2t_codec,
+    # the end-of-archive marker is the last thing inside a 256 KiB window of decoded data and the stream goes on behind it (zero
+    # padding, check sums): a reader that stops at the marker never decodes the end of the stream
+    tailwin = None
+    if draw(st.sampled_from([0, 0, 0, 1])):
+        tailwin = (draw(st.sampled_from([1, 1, 2])), draw(st.sampled_from([2, 18, 18, 40])), draw(st.floats(0, 1)), draw(st.integers(0, 511)))
+        ar["end_marker"] = True
+        damage = damage + [("trunc", 1.0 - draw(st.sampled_from([1e-9, 1e-6, 1e-5])), draw(st.integers(0, 255))), ("flip", draw(st.floats(0.05, 0.95)), draw(st.integers(1, 255)))]
+    return dict(archive=ar, codec=codec, level=level, splits=splits, trailing=trailing, chunk=chunk, damage=damage, opts=o, s2t_codec=s2t_codec, tailwin=tailwin,
                 empties=empties, short_reads=short_reads, s2t_pad=s2t_pad, s2t_mult=draw(st.sampled_from([1, 1, 2])), s2t_kind=draw(st.sampled_from(["rand", "text"])))
 
 
@@ -198,12 +205,25 @@ def feed(cmd, data, chunk, timeout=40, env=None):
 def check_case(case, opts):
     ar, o = case["archive"], case["opts"]
     codec = case["codec"]
+    classes = ["codec_" + codec]
     try:
-        plain = tarimg.encode_archive(ar["entries"], ar["end_marker"], ar["global_pax"], ar["trailing_pad"])
-        tarimg.expected_from_archive(ar["entries"], o)
+        ents, tpad = ar["entries"], ar["trailing_pad"]
+        tw = case.get("tailwin")
+        if tw:
+            k, tpad, frac, slack = tw
+            big = dict(name=b"zz-tailwin", type="file", mode=0o644, uid=0, gid=0, mtime=5, xattrs={}, data=b"", enc=dict(fmt="ustar", num="octal", ostyle=0))
+            base = len(tarimg.encode_archive(ents + [big], False, ar["global_pax"], 0))
+            x = 512 * min(tpad - 1, int(frac * tpad))              # bytes of the trailing padding that stay inside the window
+            while 262144 * k - x - 1024 - base <= 0:
+                k += 1
+            size = 262144 * k - x - 1024 - base                    # multiple of 512
+            big["data"] = treemodel.content_bytes(("rand", 11, 0, size - min(slack, size - 1)), 4096)
+            ents = ents + [big]
+            classes.append("marker_ends_a_256k_window")
+        plain = tarimg.encode_archive(ents, ar["end_marker"], ar["global_pax"], tpad)
+        tarimg.expected_from_archive(ents, o)
     except (OverflowError, treemodel.Unrepresentable):
         raise Inconclusive("generator")
-    classes = ["codec_" + codec]
     t2s = vcommon.tool("asan", "tar2sqfs")
     with Scratch("c15") as sc:
         ref = os.path.join(sc, "ref.sqfs")
@@ -309,6 +329,17 @@ def check_case(case, opts):
                 raise Violation("tar2sqfs hangs on a damaged %s stream (%s at %d of %d)" % (codec, kind, pos, len(comp)), None, sig="hang-damaged")
             if rb.sanitizer():
                 raise Violation("tar2sqfs on damaged %s stream: %s" % (codec, rb.sanitizer()), rb.err.decode(errors="replace")[-2000:], sig="sanitizer")
+            if rb.rc == 0 and kind == "trunc" and not legit_boundary:
+                # "truncated compressed input is reported as an error": a proper prefix that the reference decompressor refuses as
+                # incomplete must not be accepted, even if everything that was lost is zero padding behind the end-of-archive marker
+                try:
+                    decompress_ref(codec, bad)
+                    refused = False
+                except Exception:
+                    refused = True
+                if refused:
+                    raise Violation("%s stream cut at %d of %d bytes (incomplete for the reference decompressor) was accepted with exit 0" % (codec, pos, len(comp)),
+                                    None, sig="truncated-accepted")
             if rb.rc == 0:
                 got = open(outb, "rb").read()
                 if got != refimg and not legit_boundary:
